@@ -158,7 +158,7 @@ func cloneBoundary(r *engine.Run, prop string) {
 					"stored value is "+labNames(got)+" (map layer "+labNames(layer)+")",
 					"value stored into the cache map is "+labNames(got&^layer)+" without passing Clone()")
 			case *ssa.Call:
-				if extCalleeIs(x, "hashicorp/golang-lru", "Cache", "Add") && len(x.Call.Args) == 3 {
+				if (extCalleeIs(x, "hashicorp/golang-lru", "Cache", "Add") || extCalleeIs(x, "hashicorp/golang-lru", "Cache", "ContainsOrAdd") || extCalleeIs(x, "hashicorp/golang-lru", "Cache", "PeekOrAdd")) && len(x.Call.Args) == 3 {
 					v := through(x.Call.Args[2])
 					if !isNamed(v.Type(), pkgSC, "valueNode") {
 						return
@@ -468,7 +468,7 @@ func cloneLinear(r *engine.Run) {
 					sinks = append(sinks, sink{in, fl.Of(x.Value), "stored in a cache map"})
 				}
 			case *ssa.Call:
-				if extCalleeIs(x, "hashicorp/golang-lru", "Cache", "Add") && len(x.Call.Args) == 3 {
+				if (extCalleeIs(x, "hashicorp/golang-lru", "Cache", "Add") || extCalleeIs(x, "hashicorp/golang-lru", "Cache", "ContainsOrAdd") || extCalleeIs(x, "hashicorp/golang-lru", "Cache", "PeekOrAdd")) && len(x.Call.Args) == 3 {
 					sinks = append(sinks, sink{in, fl.Of(x.Call.Args[2]), "added to a per-key map"})
 				}
 			case *ssa.Return:
